@@ -2,6 +2,7 @@ import TracklibVerif.Lemmas.MapMatchSound
 import TracklibVerif.Lemmas.MapMatchViterbi
 import TracklibVerif.Lemmas.MapMatchCompose
 import TracklibVerif.Lemmas.MapMatchZ
+import TracklibVerif.Lemmas.MapMatchTotal
 /-! # C10 — map-matched positions lie on a real edge within the search radius
 
 Property theorems only (helpers in `Lemmas/MapMatch.lean`, `Lemmas/MapMatchSound.lean`, `Lemmas/MapMatchNet.lean`,
@@ -35,7 +36,9 @@ distance or an exception (T18); the flag state carries the observation's own pos
 geometries with their altitudes as given (T20).
 
 Exceptions (`ZeroDivisionError` of the projection on a vertical segment, D16; `UnboundLocalError` on a candidate edge all of
-whose vertices coincide) are outside: every statement is about a call that returns. -/
+whose vertices coincide): Parts I–IV are about a call that returns; Part V (T22–T23) says when it does: on a network none of
+whose edge geometries has a kept vertical segment and each of which has a kept segment (`GoodGeom`), for every answer of the
+index made of existing edge numbers and every decoder answering in-range indices, nothing is raised. -/
 namespace TV.C10
 open TV.Proj TV.MapMatch
 variable {α : Type} [Field α] [LinearOrder α] [IsStrictOrderedRing α]
@@ -645,5 +648,45 @@ example : (match buildNet3 Rat.floor demoHill 0 (some (4, 4)) (1/4) with
           | _ => false)
        | _ => false)
     | .error _ => false) = true := by decide +kernel
+
+/-! ## Part V — when nothing is raised -/
+
+/-- T22 `returns_on_regular_geometries`: the two exceptions of the candidate loop are those of the projection — `ZeroDivisionError`
+on a kept vertical segment (finding D16, class `vertical-segment-zerodiv`) and `UnboundLocalError` on a geometry all of whose
+segments are skipped (class `zero-length-edge-unbound`). On edges with computed `abs_curv` columns whose geometries have no kept
+vertical segment and at least one kept segment (`GoodGeom`), for candidate lists made of existing edge numbers and a decoder
+answering in-range indices (T2b / T2c / T13: the Viterbi decoder does), `__mapOnNetwork` returns: no `ZeroDivisionError`, no
+`UnboundLocalError`, no `KeyError` / `IndexError`. -/
+theorem returns_on_regular_geometries {sqrt : α → α} (hs : SqrtSpec sqrt) (eps radius : α) (edges : List (Edge α))
+    (hcurv : ∀ eg ∈ edges, eg.curv = absCurv sqrt eg.geom) (hgood : ∀ eg ∈ edges, GoodGeom eps eg.geom) (mode : Nat)
+    (decode : List (List (State α)) → List Nat) (track : List (Obs α)) (names : List String)
+    (cands : List (Option (List Nat))) (hc : ∀ c ∈ cands, ∀ E, c = some E → ∀ n ∈ E, n < edges.length)
+    (hdec : ∀ ss, allStates sqrt eps radius edges track cands = .ok ss →
+      ∀ (k : Nat) (l : List (State α)), ss[k]? = some l → (decode ss)[k]?.getD 0 < l.length) :
+    ∃ res, mapOnNetwork sqrt eps radius edges mode decode track names cands = .ok res := by
+  obtain ⟨ss, hss⟩ := allStates_total hs eps radius edges hcurv hgood track cands hc
+  obtain ⟨inf, hinf⟩ := inferAll_total ss (decode ss) (hdec ss hss)
+  unfold mapOnNetwork
+  rw [hss]
+  simp only [hinf]
+  exact ⟨_, rfl⟩
+
+/-- T23 `states_returned_3d`: T22 for the preparation of `STATES[i]` on data with altitudes: whether the projection can raise is
+decided by the PLANIMETRIC geometry alone (an edge that is vertical in space — same `(x, y)`, different altitudes — is a
+zero-length edge for map-matching). -/
+theorem states_returned_3d {sqrt : α → α} (hs : SqrtSpec sqrt) (eps radius : α) (edges : List (Edge3 α))
+    (hcurv : ∀ eg ∈ edges, eg.curv = absCurv3 sqrt eg.geom) (hgood : ∀ eg ∈ edges, GoodGeom eps (eg.geom.map xy))
+    (pos : P3 α) (cand : Option (List Nat)) (hc : ∀ E, cand = some E → ∀ n ∈ E, n < edges.length) :
+    ∃ l, obsStates3 sqrt eps radius edges pos cand = .ok l :=
+  obsStates3_total hs eps radius edges hcurv hgood pos cand hc
+
+/-- non-vacuity: the oblique 3-vertex geometry of `demoEdges` is `GoodGeom` (with the driver's threshold replaced by 1) -/
+example : GoodGeom (1 : Rat) [(8, 1), (11, 5), (15, 5)] := by
+  refine ⟨?_, 0, (8, 1), (11, 5), rfl, rfl, by decide +kernel⟩
+  intro j p1 p2 h1 h2 _
+  match j with
+  | 0 => simp at h1 h2; subst h1 h2; decide +kernel
+  | 1 => simp at h1 h2; subst h1 h2; decide +kernel
+  | (j + 2) => simp at h2
 
 end TV.C10
